@@ -117,6 +117,8 @@ def run(ob, scratch):
         return run_conv(ob, scratch)
     if ob['params'].get('kernel') in ('leaf_get', 'leaf_range'):
         return run_leaf(ob, scratch)
+    if ob['params'].get('kernel') == 'leaf_set':
+        return run_leaf_set(ob, scratch)
     t0 = time.time()
     P = ob['params']
     fam, kernel, n = P['family'], P['kernel'], P['n']
@@ -577,6 +579,168 @@ def run_leaf(ob, scratch):
         for i in range(n):
             v = mdl.eval(keys[i], model_completion=True).as_long()
             cex['k%d' % i] = v - (1 << kb) if (ksigned and v >> (kb - 1)) else v
+    elif reached == 0:
+        verdict, detail = 'inconclusive', 'vacuous: no feasible returning path'
+    else:
+        verdict = 'confirmed'
+    res.update(verdict=verdict, detail=detail, cex=cex, paths=len(outs), solver_queries=it.stats['queries'] + q,
+               solver_s=round(it.stats['solver_s'] + ts, 3), wall_s=round(time.time() - t0, 2), twin_refuted=reached > 0,
+               instr=it.stats['instr'], witness={'returning_paths': reached})
+    return res
+
+
+# ---------------------------------------------------------------------------
+# the mutating leaf kernel: _bucket_set (assign / insert-if-absent / delete) as compiled for the native families
+
+def run_leaf_set(ob, scratch):
+    t0 = time.time()
+    P = ob['params']
+    fam, n, op, spare = P['family'], P['n'], P['op'], P.get('spare', 0)
+    res = {'id': ob['id'], 'names': ['n', 'v'] + ['k%d' % i for i in range(n)] + ['w%d' % i for i in range(n)], 'twin_refuted': False,
+           'witness': None, 'twin_s': 0}
+    kb, ksigned = KEYT[fam[0]]
+    vb, vsigned = KEYT[fam[1]]
+    aw, vw = z3.BitVec('n', kb), z3.BitVec('v', vb)
+    keys = [z3.BitVec('k%d' % i, kb) for i in range(n)]
+    vals = [z3.BitVec('w%d' % i, vb) for i in range(n)]
+    ltk = (lambda a_, b_: a_ < b_) if ksigned else z3.ULT
+    pre = [ltk(keys[i], keys[i + 1]) for i in range(n - 1)]
+    try:
+        module = build_conv(fam, scratch)
+        it, mem, L = leaf_setup(module, fam, z3.IntVal(0), z3.BoolVal(True), keys, vals, n + spare, ob.get('timeout', 120))
+        # a second fake int object for the value; the conversion stubs answer per object
+        vobj = mem.alloc(32, 'object')
+        mem.store(vobj, 8, llsym.bv(1, 64))
+        mem.store(vobj + 8, 8, mem.load(L['obj'] + 8, 8))
+        words = {L['obj']: ((z3.SignExt if ksigned else z3.ZeroExt)(64 - kb, aw) if kb < 64 else aw),
+                 vobj: ((z3.SignExt if vsigned else z3.ZeroExt)(64 - vb, vw) if vb < 64 else vw)}
+
+        def as_word(itp, args, m_, cond):
+            return words[itp.conc(args[0])]
+
+        def as_word_ovf(itp, args, m_, cond):
+            m_.store(itp.conc(args[1]), 4, llsym.bv(0, 32))
+            return words[itp.conc(args[0])]
+
+        def realloc(itp, args, m_, cond):
+            p_, sz = itp.conc(args[0]), itp.conc(args[1])
+            new = m_.alloc(sz, 'heap')
+            if p_:
+                old = m_.regions[p_]
+                for off, c in list(old[2].items()):
+                    if off + c[1] <= sz:
+                        m_.store(new + off, c[1], c[0])
+                m_.free(p_)
+            return llsym.bv(new, 64)
+
+        it.externs.update(PyLong_AsLong=as_word, PyLong_AsUnsignedLongLong=as_word, PyLong_AsLongLongAndOverflow=as_word_ovf,
+                          realloc=realloc)
+        chg = mem.alloc(4, 'changed-flag')
+        mem.store(chg, 4, llsym.bv(0, 32))
+        args = [llsym.bv(L['bucket'], 64), llsym.bv(L['obj'], 64), llsym.bv(0 if op == 'delete' else vobj, 64),
+                llsym.bv(1 if op == 'insert' else 0, 32), llsym.bv(0, 32), llsym.bv(chg, 64)]
+        outs = it.run('_bucket_set', args, mem, pre)
+    except (llsym.Unsupported, llsym.Budget) as e:
+        res.update(verdict='inconclusive', detail='%s: %s' % (type(e).__name__, e), paths=0, solver_queries=0, solver_s=0, wall_s=time.time() - t0)
+        return res
+    lay = module.layout('%struct.Bucket_s')[2]
+    s = z3.Solver()
+    s.add(*pre)
+    q, ts, cex, detail, reached = 0, 0.0, None, None, 0
+    for o in outs:
+        s.push()
+        s.add(*o.cond)
+        t1 = time.perf_counter()
+        feas = str(s.check())
+        q += 1
+        if feas != 'sat':
+            s.pop()
+            ts += time.perf_counter() - t1
+            if feas == 'unknown':
+                cex, detail = 'unknown', 'solver unknown on a path condition'
+                break
+            continue
+        if o.kind in ('assert', 'memory'):
+            cex, detail = s.model(), ('assertion reachable: ' if o.kind == 'assert' else 'memory error: ') + str(o.detail)
+            s.pop()
+            break
+        if o.kind == 'dead':
+            s.pop()
+            continue
+        reached += 1
+        b = L['bucket']
+        ret = o.ret
+        e = o.mem.load(L['err'], 8)
+        state = o.mem.load(L['state'], 4)
+        flag = o.mem.load(chg, 4)
+        notified = (o.mem.load(L['log'], 8) & 1) != 0
+        ln = z3.simplify(o.mem.load(b + lay[8], 4))
+        sz = z3.simplify(o.mem.load(b + lay[7], 4))
+        if not (z3.is_bv_value(ln) and z3.is_bv_value(sz)):
+            cex, detail = 'unknown', 'symbolic length'
+            s.pop()
+            break
+        ln, sz = ln.as_long(), sz.as_long()
+        kp = z3.simplify(o.mem.load(b + lay[10], 8)).as_long()
+        vp = z3.simplify(o.mem.load(b + lay[11], 8)).as_long()
+        try:
+            nk = [o.mem.load(kp + i * kb // 8, kb // 8) for i in range(ln)]
+            nv = [o.mem.load(vp + i * vb // 8, vb // 8) for i in range(ln)]
+        except llsym.MemError as me:
+            cex, detail = s.model(), 'the leaf points at memory it does not own: %s' % me
+            s.pop()
+            break
+        found = [keys[i] == aw for i in range(n)]
+        anyf = z3.Or(*found) if found else z3.BoolVal(False)
+        asc = z3.And(*[ltk(nk[i], nk[i + 1]) for i in range(ln - 1)]) if ln > 1 else z3.BoolVal(True)
+
+        def has(k_, v_):
+            return z3.Or(*[z3.And(nk[j] == k_, nv[j] == v_) for j in range(ln)]) if ln else z3.BoolVal(False)
+        same_arrays = z3.And(ln == n, *[z3.And(nk[i] == keys[i], nv[i] == vals[i]) for i in range(min(n, ln))])
+        cases = []
+        for i in range(n):
+            if op == 'set':
+                exp = z3.And(ret == 0, ln == n, e == 0,
+                             *[z3.And(nk[j] == keys[j], nv[j] == (vw if j == i else vals[j])) for j in range(min(n, ln))],
+                             (flag == 1) == (vals[i] != vw), notified == (vals[i] != vw))
+            elif op == 'insert':
+                exp = z3.And(ret == 0, same_arrays, e == 0, flag == 0, z3.Not(notified))
+            else:
+                exp = z3.And(ret == 1, ln == n - 1, e == 0, flag == 1, notified, asc,
+                             *[has(keys[j], vals[j]) for j in range(n) if j != i],
+                             *([sz == 0, kp == 0, vp == 0] if n == 1 else []))
+            cases.append(z3.Implies(found[i], exp))
+        if op == 'delete':
+            cases.append(z3.Implies(z3.Not(anyf), z3.And(ret == llsym.bv(-1, 32), e == llsym.bv(KEY_ERROR, 64), same_arrays, flag == 0, z3.Not(notified))))
+        else:
+            cases.append(z3.Implies(z3.Not(anyf), z3.And(ret == 1, ln == n + 1, e == 0, flag == 1, notified, asc, has(aw, vw),
+                                                         *[has(keys[j], vals[j]) for j in range(n)])))
+        post = z3.And(state == 0, ln <= sz if True else True, *cases)
+        r = str(s.check(z3.Not(post)))
+        q += 1
+        ts += time.perf_counter() - t1
+        if r == 'sat':
+            cex, detail = s.model(), '_bucket_set post-condition violated (%s: result / contents / change flag / notification / pin)' % op
+            s.pop()
+            break
+        if r != 'unsat':
+            cex, detail = 'unknown', 'solver unknown on the post-condition'
+            s.pop()
+            break
+        s.pop()
+    if cex == 'unknown':
+        verdict, cex = 'inconclusive', None
+    elif cex is not None:
+        verdict = 'counterexample'
+        mdl = cex
+
+        def gv(x, bits, sg):
+            v_ = mdl.eval(x, model_completion=True).as_long()
+            return v_ - (1 << bits) if (sg and v_ >> (bits - 1)) else v_
+        cex = {'n': gv(aw, kb, ksigned), 'v': gv(vw, vb, vsigned)}
+        for i in range(n):
+            cex['k%d' % i] = gv(keys[i], kb, ksigned)
+            cex['w%d' % i] = gv(vals[i], vb, vsigned)
     elif reached == 0:
         verdict, detail = 'inconclusive', 'vacuous: no feasible returning path'
     else:
